@@ -10,7 +10,7 @@ typedef uint8_t resize_factor;
 struct varopt { uint32_t k_, h_, m_, r_; uint64_t n_; double total_wt_r_; resize_factor rf_; uint32_t curr_items_alloc_; bool filled_data_;
                 T* data_; double* weights_; uint32_t num_marks_in_h_; bool* marks_; };
 int g_live;      /* ghost: live blocks obtained from the allocator */
-uint32_t g_j;    /* ghost: an arbitrary slot */
+uint32_t g_j; uint64_t g_item;   /* ghost: an arbitrary slot and the item it holds */
 static void* vo_alloc(size_t n, size_t esz) { g_live++; return verif_alloc((n ? n : 1) * esz); }
 /* deallocate(p, n): the size assertion compares n with the size the block was allocated with (zero-length blocks are 1 element in this model) */
 static void vo_free(void* p, size_t n, size_t esz) { g_live--; verif_free(p, (n ? n : 1) * esz); }
@@ -61,7 +61,7 @@ __CPROVER_requires(__CPROVER_is_fresh(self, sizeof(*self)) && self->k_ >= 1 && s
 __CPROVER_requires(self->curr_items_alloc_ >= 1 && self->curr_items_alloc_ <= ((uint32_t)1 << 27) && self->curr_items_alloc_ <= self->k_)
 __CPROVER_requires(ARR_FRESH(self->data_, self->curr_items_alloc_, sizeof(T)) && ARR_FRESH(self->weights_, self->curr_items_alloc_, sizeof(double)))
 __CPROVER_requires(self->marks_ == NULL || ARR_FRESH(self->marks_, self->curr_items_alloc_, sizeof(bool)))
-__CPROVER_requires(g_j < self->curr_items_alloc_)
+__CPROVER_requires(g_j < self->curr_items_alloc_ ==> g_item == self->data_[g_j])
 __CPROVER_assigns(g_live, self->curr_items_alloc_, self->filled_data_, self->data_, self->weights_, self->marks_)
 __CPROVER_frees(self->data_, self->weights_, self->marks_)
 /* the arrays grow (rf_ > 0), never beyond k_ + 1, and leave room for the gap slot when full size is reached */
@@ -70,7 +70,7 @@ __CPROVER_ensures(self->rf_ > 0 ==> self->curr_items_alloc_ > __CPROVER_old(self
 /* every array is a block of exactly the new size (what the destructor and the next grow will release), with the old content */
 __CPROVER_ensures(ARR_EXACT(self->data_, self->curr_items_alloc_, sizeof(T)) && ARR_EXACT(self->weights_, self->curr_items_alloc_, sizeof(double)))
 __CPROVER_ensures((__CPROVER_old(self->marks_) != NULL) ? ARR_EXACT(self->marks_, self->curr_items_alloc_, sizeof(bool)) : self->marks_ == NULL)
-__CPROVER_ensures(self->data_[g_j] == __CPROVER_old(self->data_[g_j]))
+__CPROVER_ensures(g_j < __CPROVER_old(self->curr_items_alloc_) ==> self->data_[g_j] == g_item)
 /* each old block released once with its allocated size (size assertions in vo_free): live blocks unchanged */
 __CPROVER_ensures(g_live == __CPROVER_old(g_live))
 ''',
